@@ -90,6 +90,7 @@ func (e *Eng) obligations() {
 	e.ndstreamChunks()
 	e.automaton()
 	e.codec()
+	e.codecConfig()
 
 	// ---- C16: who reads Message
 	e.messageReaders()
